@@ -1,6 +1,7 @@
 package core
 
 import (
+	"go/token"
 	"fmt"
 	"strings"
 
@@ -62,8 +63,114 @@ type PathQuery struct {
 	// (0,0) counts with what the paths of that callee contribute (entry to return, same Weight and Edge; three levels,
 	// no recursion) - moving part of a function into a helper does not change a count. Shallow switches that off.
 	Shallow bool
+	// Assume fixes the value of boolean subjects (value level, unlike Edge): at an If whose condition is such a subject -
+	// or a phi / negation that evaluates to a known value under the assumptions, over the incoming edges that are
+	// feasible under them (`x := a && f(); if x`) - only the matching edge is taken.
+	Assume []Assumption
 
 	deep *deepState
+}
+
+// Assumption: every value satisfying Pred is taken to be Val.
+type Assumption struct {
+	Pred func(v ssa.Value) bool
+	Val  bool
+}
+
+// assumeEval evaluates a boolean value under the assumptions; feasible says which blocks can be reached at all.
+func (q PathQuery) assumeEval(v ssa.Value, feasible map[*ssa.BasicBlock]bool, busy map[ssa.Value]bool) (val, known bool) {
+	if cv, isC := ConstCond(v); isC {
+		return cv, true
+	}
+	if u, ok := v.(*ssa.UnOp); ok && u.Op == token.NOT {
+		x, k := q.assumeEval(u.X, feasible, busy)
+		return !x, k
+	}
+	for _, a := range q.Assume {
+		if a.Pred(v) {
+			return a.Val, true
+		}
+	}
+	phi, ok := v.(*ssa.Phi)
+	if !ok || busy[v] {
+		return false, false
+	}
+	busy[v] = true
+	defer delete(busy, v)
+	have := false
+	for i, e := range phi.Edges {
+		pred := phi.Block().Preds[i]
+		if feasible != nil && !feasible[pred] {
+			continue
+		}
+		if !q.edgeOK(pred, phi.Block(), feasible, busy) {
+			continue
+		}
+		x, k := q.assumeEval(e, feasible, busy)
+		if !k {
+			return false, false
+		}
+		if have && x != val {
+			return false, false
+		}
+		val, have = x, true
+	}
+	return val, have
+}
+
+// edgeOK: the edge may be taken under Edge and Assume.
+func (q PathQuery) edgeOK(from, to *ssa.BasicBlock, feasible map[*ssa.BasicBlock]bool, busy map[ssa.Value]bool) bool {
+	if q.Edge != nil && !q.Edge(from, to) {
+		return false
+	}
+	if len(q.Assume) == 0 || len(from.Instrs) == 0 {
+		return true
+	}
+	iff, ok := from.Instrs[len(from.Instrs)-1].(*ssa.If)
+	if !ok || len(from.Succs) != 2 || from.Succs[0] == from.Succs[1] {
+		return true
+	}
+	if busy == nil {
+		busy = map[ssa.Value]bool{}
+	}
+	v, known := q.assumeEval(iff.Cond, feasible, busy)
+	if !known {
+		return true
+	}
+	if v {
+		return to == from.Succs[0]
+	}
+	return to == from.Succs[1]
+}
+
+// feasibleBlocks: the blocks reachable from the function entry under Edge and Assume (fixpoint: a phi folds to a
+// constant once the blocks feeding its other values are known to be unreachable).
+func (q PathQuery) feasibleBlocks() map[*ssa.BasicBlock]bool {
+	if len(q.Assume) == 0 {
+		return nil
+	}
+	var feasible map[*ssa.BasicBlock]bool
+	for it := 0; it < 4; it++ {
+		next := map[*ssa.BasicBlock]bool{}
+		var dfs func(b *ssa.BasicBlock)
+		dfs = func(b *ssa.BasicBlock) {
+			if next[b] {
+				return
+			}
+			next[b] = true
+			for _, s := range Succs(b) {
+				if q.edgeOK(b, s, feasible, nil) {
+					dfs(s)
+				}
+			}
+		}
+		dfs(q.Fn.Blocks[0])
+		if feasible != nil && len(next) == len(feasible) {
+			break
+		}
+		feasible = next
+	}
+	return feasible
 }
 
 type deepState struct {
@@ -104,7 +211,7 @@ func (q PathQuery) calleeWeight(in ssa.Instruction) (int, int) {
 	}
 	iv, ok := ds.memo[callee]
 	if !ok {
-		sub := PathQuery{Fn: callee, Weight: q.Weight, Edge: q.Edge, Exit: func(b *ssa.BasicBlock) bool { return ExitOf(b) == ExitReturn },
+		sub := PathQuery{Fn: callee, Weight: q.Weight, Edge: q.Edge, Assume: q.Assume, Exit: func(b *ssa.BasicBlock) bool { return ExitOf(b) == ExitReturn },
 			deep: &deepState{memo: ds.memo, stack: append(append([]*ssa.Function{}, ds.stack...), q.Fn)}}
 		iv = sub.Count()
 		ds.memo[callee] = iv
@@ -184,6 +291,7 @@ func (q PathQuery) Count() Interval {
 	for i, b := range fn.Blocks {
 		nodes[i+1] = mk(b, 0)
 	}
+	feasible := q.feasibleBlocks()
 	succ := func(id int) []int {
 		n := nodes[id]
 		if n.terminal {
@@ -194,7 +302,7 @@ func (q PathQuery) Count() Interval {
 			if IsSelectPanicBlock(s) {
 				continue
 			}
-			if q.Edge != nil && !q.Edge(n.b, s) {
+			if !q.edgeOK(n.b, s, feasible, nil) {
 				continue
 			}
 			out = append(out, s.Index+1)
